@@ -8,7 +8,7 @@ RULES = {
     "C01": [("sa.rules.b6", "r_C19a_C01"), ("sa.rules.c01", "r_C01ef")],
     "C02": [("sa.rules.b6", "r_C02ab"), ("sa.rules.b3", "r_C02cd"), ("sa.rules.b3", "r_C08_C34"), ("sa.rules.c08", "r_C08bc"), ("sa.rules.c01", "r_C01ef")],
     "C03": [("sa.rules.b1", "r_C03a"), ("sa.rules.b6", "r_C03bc"), ("sa.rules.b3", "r_C03de_C11a_C17bc")],
-    "C04": [("sa.rules.b2", "r_C04"), ("sa.rules.c01", "r_C01ef")],
+    "C04": [("sa.rules.b2", "r_C04"), ("sa.rules.c04", "r_C04a"), ("sa.rules.c01", "r_C01ef")],
     "C05": [("sa.rules.b3", "r_C05_C10")],
     "C06": [("sa.rules.b7", "r_origin")],
     "C07": [("sa.rules.b3", "r_C07")],
